@@ -10,7 +10,7 @@ import itertools
 import random
 import re
 
-from runtime.common import use_repo, spec_examples, chunks, pool_map, Timer
+from runtime.common import use_repo, spec_examples, chunks, Timer
 from runtime import html_wf
 
 use_repo()
